@@ -49,3 +49,11 @@ func Jitter() {
 		time.Sleep(time.Duration(n%97) * time.Microsecond)
 	}
 }
+
+// Pause makes the calling harness thread wait a random moment (0..600 microseconds) in a native replay, so
+// that a one-shot observer does not always look before anything has happened.  No effect in the engines.
+func Pause() {
+	n := jitterState.Add(0x9e3779b97f4a7c15)
+	n ^= n >> 31
+	time.Sleep(time.Duration(n%600) * time.Microsecond)
+}
